@@ -191,7 +191,17 @@ func init() {
 	})
 }
 
+// runC03: most cases run alone; some run as concurrent sessions of the same
+// case shape in one process (package-level state in the code under test).
 func runC03(cs *vrt.Case) {
+	if cs.Idx >= len(c03Shipped()) && cs.Idx%4 == 3 {
+		cs.Twins(2+(cs.Idx/4)%2, func(sub *vrt.Case, _ *vrt.Rng) { runC03One(sub) })
+		return
+	}
+	runC03One(cs)
+}
+
+func runC03One(cs *vrt.Case) {
 	files := c03Shipped()
 	if cs.Idx < len(files) {
 		c03ShippedCase(cs, files[cs.Idx])
